@@ -55,6 +55,7 @@ inductive Stmt
   | eval (e : Expr)                             -- expression statement (value discarded): `i.sum.Add(n)`
   | effect (what : String)                      -- lock / unlock / hook / broadcast: trace only
   | deferEffect (what : String)
+  | deferRecover (what : String)                 -- `defer f(…)` where f calls `recover()`: a panic of the scope stops here
   | ite (c : Expr) (t e : Stmt)
   | scope (body : Stmt)                         -- `func() { … }()`: a block with its own deferred calls
   | while (c : Expr) (body : Stmt)
@@ -181,7 +182,9 @@ def finish : Outcome F → Except String (List (Val F) × State F)
   | .normal s1 => .ok ([], { s1 with trace := s1.defers.reverse ++ s1.trace, defers := [] })
   | .returned vs s1 => .ok (vs, { s1 with trace := s1.defers.reverse ++ s1.trace, defers := [] })
   | .error m => .error m
-  | .panicked s1 => .ok ([], { s1 with trace := "<panicked>" :: (s1.defers.reverse ++ s1.trace), defers := [] })
+  | .panicked s1 =>
+    if s1.defers.contains "<recover>" then .ok ([], { s1 with trace := "<recovered>" :: (s1.defers.reverse ++ s1.trace), defers := [] })
+    else .ok ([], { s1 with trace := "<panicked>" :: (s1.defers.reverse ++ s1.trace), defers := [] })
 
 /-- evaluate the arguments of a call, then continue as a statement -/
 def bindL (r : Except String (List (Val F) × State F)) (k : List (Val F) → State F → Outcome F) : Outcome F :=
@@ -227,7 +230,9 @@ def State.setAll (s : State F) : List String → (Nat → Val F) → Nat → Sta
 @[minigo] theorem setAll_cons (s : State F) (d : String) (ds : List String) (f : Nat → Val F) (i : Nat) :
     s.setAll (d :: ds) f i = if d = "_" then s.setAll ds f (i + 1) else (s.set d (f i)).setAll ds f (i + 1) := rfl
 @[minigo] theorem finish_panicked (s1 : State F) :
-    finish (.panicked s1) = .ok ([], { s1 with trace := "<panicked>" :: (s1.defers.reverse ++ s1.trace), defers := [] }) := rfl
+    finish (.panicked s1) =
+      if s1.defers.contains "<recover>" then .ok ([], { s1 with trace := "<recovered>" :: (s1.defers.reverse ++ s1.trace), defers := [] })
+      else .ok ([], { s1 with trace := "<panicked>" :: (s1.defers.reverse ++ s1.trace), defers := [] }) := rfl
 @[minigo] theorem andThen_panicked (s : State F) (k : State F → Outcome F) : (Outcome.panicked s).andThen k = .panicked s := rfl
 
 @[minigo] theorem bindE_ok {α} (v : Val F) (s : State F) (k : Val F → State F → Except String α) :
@@ -302,6 +307,7 @@ def binop (op : BinOp) : Val F → Val F → Except String (Val F)
   | .flt a, .flt b => binopFlt op a b
   | .bool a, .bool b => binopBool op a b
   | .nil, .nil => binopNil op true
+  | .ref a, .ref b => binopNil op (a == b)          -- two opaque values: the same one or not (`err == errFailNow`)
   | .nil, _ | _, .nil => binopNil op false          -- exactly one side is nil (a pointer to a value is not)
   | _, _ => .error "type: operands"
 
@@ -420,6 +426,7 @@ def exec (ext : Ext F) : Nat → Stmt → State F → Outcome F
   | _, .eval e, s => bindS (evalE ext e s) fun _ s1 => .normal s1
   | _, .effect w, s => .normal { s with trace := w :: s.trace }
   | _, .deferEffect w, s => .normal { s with defers := w :: s.defers }
+  | _, .deferRecover w, s => .normal { s with defers := w :: "<recover>" :: s.defers }
   | fuel, .ite c t e, s => bindS (evalE ext c s) fun v s1 => asBoolS v fun b =>
       if b then exec ext fuel t s1 else exec ext fuel e s1
   | fuel, .scope b, s =>
@@ -429,7 +436,11 @@ def exec (ext : Ext F) : Nat → Stmt → State F → Outcome F
     | .normal s1 => .normal { s1 with trace := s1.defers.reverse ++ s1.trace, defers := s.defers }
     | .returned _ s1 => .normal { s1 with trace := s1.defers.reverse ++ s1.trace, defers := s.defers }
     | .error m => .error m
-    | .panicked s1 => .panicked { s1 with trace := s1.defers.reverse ++ s1.trace, defers := s.defers }
+    | .panicked s1 =>
+      -- the deferred calls run; one that recovers ends the panic and the block returns normally
+      if s1.defers.contains "<recover>" then
+        .normal { s1 with trace := "<recovered>" :: (s1.defers.reverse ++ s1.trace), defers := s.defers }
+      else .panicked { s1 with trace := s1.defers.reverse ++ s1.trace, defers := s.defers }
   | 0, .while _ _, _ => .error "out of fuel"
   | fuel + 1, .while c body, s => bindS (evalE ext c s) fun v s1 => asBoolS v fun b =>
       if b then (exec ext fuel body s1).andThen fun s2 => exec ext fuel (.while c body) s2
@@ -530,6 +541,7 @@ omit [FloatLike F] in
 @[minigo] theorem binop_nil_nonNil (op : BinOp) : binop (F := F) op .nil .nonNil = binopNil op false := rfl
 @[minigo] theorem binop_int_nil (op : BinOp) (a : Int) : binop (F := F) op (.int a) .nil = binopNil op false := rfl
 @[minigo] theorem binop_nil_int (op : BinOp) (a : Int) : binop (F := F) op .nil (.int a) = binopNil op false := rfl
+@[minigo] theorem binop_ref_ref (op : BinOp) (a b : Nat) : binop (F := F) op (.ref a) (.ref b) = binopNil op (a == b) := rfl
 @[minigo] theorem binop_ref_nil (op : BinOp) (n : Nat) : binop (F := F) op (.ref n) .nil = binopNil op false := rfl
 @[minigo] theorem binop_nil_ref (op : BinOp) (n : Nat) : binop (F := F) op .nil (.ref n) = binopNil op false := rfl
 @[minigo] theorem binop_flt_nil (op : BinOp) (a : F) : binop op (.flt a) .nil = binopNil op false := rfl
@@ -537,6 +549,7 @@ omit [FloatLike F] in
 @[minigo] theorem coerce_flt_flt (a b : F) : coerce (.flt a) (.flt b) = (.flt a, .flt b) := rfl
 @[minigo] theorem coerce_flt_int (a : F) (b : Int) : coerce (.flt a) (.int b) = (.flt a, .flt (FloatLike.ofInt b)) := rfl
 @[minigo] theorem coerce_int_flt (a : Int) (b : F) : coerce (.int a) (.flt b) = (.flt (FloatLike.ofInt a), .flt b) := rfl
+@[minigo] theorem coerce_ref_ref (a b : Nat) : coerce (F := F) (.ref a) (.ref b) = (.ref a, .ref b) := rfl
 @[minigo] theorem coerce_bool_bool (a b : Bool) : coerce (F := F) (.bool a) (.bool b) = (.bool a, .bool b) := rfl
 @[minigo] theorem coerce_nil_left (v : Val F) : coerce (.nil : Val F) v = (.nil, v) := by cases v <;> rfl
 /-- field inheritance: the value itself if present, else the default -/
@@ -714,6 +727,9 @@ theorem evalE_bin_gen (op : BinOp) (h1 : op ≠ .land) (h2 : op ≠ .lor) (a b :
   simp [exec]
 @[minigo] theorem exec_deferEffect (fuel : Nat) (w : String) : exec ext fuel (.deferEffect w) σ = .normal (State.mk vs cs tr (w :: df) ar) := by
   simp [exec]
+@[minigo] theorem exec_deferRecover (fuel : Nat) (w : String) : exec ext fuel (.deferRecover w) σ =
+    .normal (State.mk vs cs tr (w :: "<recover>" :: df) ar) := by
+  simp [exec]
 @[minigo] theorem exec_ite (fuel : Nat) (c : Expr) (t e : Stmt) : exec ext fuel (.ite c t e) σ =
     bindS (evalE ext c σ) fun v s1 => asBoolS v fun b => if b then exec ext fuel t s1 else exec ext fuel e s1 := by
   simp [exec]
@@ -722,7 +738,10 @@ theorem evalE_bin_gen (op : BinOp) (h1 : op ≠ .land) (h2 : op ≠ .lor) (a b :
      | .normal s1 => .normal { s1 with trace := s1.defers.reverse ++ s1.trace, defers := df }
      | .returned _ s1 => .normal { s1 with trace := s1.defers.reverse ++ s1.trace, defers := df }
      | .error m => .error m
-     | .panicked s1 => .panicked { s1 with trace := s1.defers.reverse ++ s1.trace, defers := df }) := by simp [exec]
+     | .panicked s1 =>
+       if s1.defers.contains "<recover>" then
+         .normal { s1 with trace := "<recovered>" :: (s1.defers.reverse ++ s1.trace), defers := df }
+       else .panicked { s1 with trace := s1.defers.reverse ++ s1.trace, defers := df }) := by simp [exec]
 @[minigo] theorem exec_while_zero (c : Expr) (b : Stmt) : exec ext 0 (.while c b) σ = .error "out of fuel" := by simp [exec]
 @[minigo] theorem exec_while_succ (fuel : Nat) (c : Expr) (body : Stmt) : exec ext (fuel + 1) (.while c body) σ =
     bindS (evalE ext c σ) fun v s1 => asBoolS v fun b =>
@@ -793,6 +812,7 @@ def atomicOps : Stmt → List String
   | .store c e => atomicOpsE e ++ ["store " ++ c]
   | .effect w => [w]
   | .deferEffect w => ["defer " ++ w]
+  | .deferRecover w => ["defer " ++ w]
   | .ite c t e => atomicOpsE c ++ atomicOps t ++ atomicOps e
   | .scope b => atomicOps b
   | .while c b => atomicOpsE c ++ atomicOps b
